@@ -48,6 +48,8 @@ type Event struct {
 	D     string `json:"d,omitempty"`
 	Res   string `json:"res,omitempty"`
 	Fresh bool   `json:"fresh"`
+	Op    string `json:"op,omitempty"` // M: which update
+	D1    string `json:"d1,omitempty"` // M: digest of the cell after the update
 	// not part of the trace
 	call *callInfo
 }
@@ -58,6 +60,10 @@ type callInfo struct {
 	kind string // variant kind
 	fn   string
 	note string // panic text etc.
+	// update experiment: the cell this event is about, and the update that preceded it (audits)
+	cell    int
+	updKind string
+	updCell int
 }
 
 type caseInfo struct {
@@ -735,7 +741,7 @@ func fileByCase(events []Event) (lines []Event) {
 	memCases := map[string][]string{}
 	idCase := map[int]string{}
 	for _, e := range events {
-		if e.Ev == "B" {
+		if e.Ev == "B" || e.Ev == "M" {
 			idCase[e.ID] = e.Case
 			if !slices.Contains(memCases[e.Mem], e.Case) {
 				memCases[e.Mem] = append(memCases[e.Mem], e.Case)
@@ -752,11 +758,15 @@ func fileByCase(events []Event) (lines []Event) {
 	}
 	for _, e := range events {
 		switch e.Ev {
-		case "B":
+		case "B", "M":
 			put(e.Case, e)
 		case "E":
 			put(idCase[e.ID], e)
 		case "A":
+			if e.Case != "" { // filed by the harness (cells that are only ever audited included)
+				put(e.Case, e)
+				break
+			}
 			for _, c := range memCases[e.Mem] {
 				put(c, e)
 			}
@@ -838,6 +848,26 @@ func goCheck(lines []Event) (out []reject) {
 				rej("V:input-changed-when-quiet audit")
 			}
 			seen[t.Mem] = t.D
+		case "M":
+			if t.Case != cs {
+				rej("H:event filed under another case")
+			}
+			for _, o := range opens {
+				if o.mem == t.Mem {
+					rej("H:update of memory a call is running on")
+					break
+				}
+			}
+			if d, ok := seen[t.Mem]; ok && d != t.D {
+				rej("V:cell-changed-before-update " + t.Op)
+			}
+			if r, ok := memo[t.Fn]; ok && r != t.Res {
+				rej("V:update-result-differs " + t.Op)
+			}
+			seen[t.Mem] = t.D1
+			if _, ok := memo[t.Fn]; !ok {
+				memo[t.Fn] = t.Res
+			}
 		default:
 			rej("H:unknown event")
 		}
@@ -864,6 +894,8 @@ func traceBytes(lines []Event) []byte {
 			m = map[string]any{"ev": "E", "id": e.ID, "res": e.Res, "d": e.D, "fresh": e.Fresh}
 		case "A":
 			m = map[string]any{"ev": "A", "mem": e.Mem, "d": e.D}
+		case "M":
+			m = map[string]any{"ev": "M", "id": e.ID, "fn": e.Fn, "op": e.Op, "case": e.Case, "mem": e.Mem, "d": e.D, "d1": e.D1, "res": e.Res}
 		default:
 			m = map[string]any{"ev": e.Ev}
 		}
